@@ -1,7 +1,18 @@
 // Package c30 replays the runs of spec/StreamHeader.tla (binding A) on the real
 // quicstreamheader.ClientBroker / HandlerBroker (through quicstreamheader.NewHandler, with
 // the real JSON encoder and real headers) over in-memory streams delivered in chunks, and
-// fuzzes the read side with raw bytes (mode "fuzz", no-panic oracle).
+// fuzzes the read side with raw bytes (mode "fuzz", no-panic oracle; untouched streams under
+// random chunk sizes must read back what was written).
+//
+// Deliveries: the four dense ones (all, one, tok, inlen) for every run; the sparse ones of the
+// specification (kase.Cuts: one or two cut points anywhere, so that a chunk completes a field
+// and carries bytes of the next) once per distinct (bytes of the direction, read calls).
+//
+// The code under test starts goroutines of its own (util.AwareContextValue, util.EnsureRead):
+// a panic there cannot be recovered and kills the process. Results are therefore written
+// unbuffered, one line per case, preceded by a {"start":i} line; with --trace every guarded
+// call is preceded by a {"unit":..,"side":..} line. check/props/c30.py attributes a crash to
+// the case (and unit) that was running, re-runs it alone and turns it into a verdict.
 package c30
 
 import (
@@ -15,7 +26,9 @@ import (
 	"net"
 	"os"
 	"runtime"
+	"sort"
 	"strconv"
+	"strings"
 	"sync"
 	"time"
 
@@ -184,6 +197,80 @@ func plansOf(n int, ends []int) []plan {
 
 var eofModes = []string{"late", "eager"}
 
+// cutPlan turns a delivery of the specification (cut points 10*token+pos: pos 0 = end of the
+// token, 1 = after its first byte, 2 = middle, 3 = before its last byte) into chunk sizes.
+func cutPlan(cuts []int, ends []int, n int) (plan, error) {
+	var offs []int
+	var names []string
+	for _, c := range cuts {
+		i, o := c/10, c%10
+		if i < 1 || i > len(ends) || o > 3 {
+			return plan{}, fmt.Errorf("cut %d: no such token (%d tokens)", c, len(ends))
+		}
+		from, to := 0, ends[i-1]
+		if i > 1 {
+			from = ends[i-2]
+		}
+		off := to
+		switch o {
+		case 1:
+			off = from + 1
+		case 2:
+			off = from + (to-from)/2
+		case 3:
+			off = to - 1
+		}
+		if o != 0 && (off <= from || off >= to) {
+			return plan{}, fmt.Errorf("cut %d: token of %d bytes cannot be split", c, to-from)
+		}
+		if off <= 0 || off > n {
+			return plan{}, fmt.Errorf("cut %d: offset %d outside the %d bytes", c, off, n)
+		}
+		offs = append(offs, off)
+		names = append(names, fmt.Sprintf("%d%c", i, "efml"[o]))
+	}
+	sort.Ints(offs)
+	var sizes []int
+	prev := 0
+	for _, o := range offs {
+		if o > prev {
+			sizes = append(sizes, o-prev)
+			prev = o
+		}
+	}
+	return plan{"cut(" + strings.Join(names, ",") + ")", sizes}, nil
+}
+
+// unbuffered ndjson: a line is on disk when Emit returns, whatever happens to the process next
+type lineOut struct {
+	mu sync.Mutex
+	fd *os.File
+}
+
+func (o *lineOut) Emit(v interface{}) {
+	b, err := json.Marshal(v)
+	if err != nil {
+		panic(err)
+	}
+	b = append(b, '\n')
+	o.mu.Lock()
+	_, _ = o.fd.Write(b)
+	o.mu.Unlock()
+}
+
+// opts of one process: progress lines per guarded call, units to leave out
+type opts struct {
+	out   *lineOut
+	trace bool
+	skip  map[string]bool
+}
+
+func (o *opts) unit(i int, name, side, tok string) {
+	if o.trace {
+		o.out.Emit(map[string]interface{}{"unit": name, "side": side, "case": i, "tok": tok})
+	}
+}
+
 // ---------------------------------------------------------------- cases
 
 type msg struct {
@@ -215,6 +302,52 @@ type kase struct {
 		C2H int `json:"c2h"`
 		H2C int `json:"h2c"`
 	} `json:"ntok"`
+	Cuts struct { // sparse deliveries: c = one cut, 1000*c+d = two cuts
+		C2H []int `json:"c2h"`
+		H2C []int `json:"h2c"`
+	} `json:"cuts"`
+	ownC2H, ownH2C bool // first case with these bytes and read calls: performs the sparse deliveries
+}
+
+func cutsOf(dl int) []int {
+	if dl < 1000 {
+		return []int{dl}
+	}
+	return []int{dl / 1000, dl % 1000}
+}
+
+// owners marks, per direction, the first case of every class (messages of the direction, adversary
+// action, read calls of the direction): the bytes and the calls of the reading side are the same
+// within a class, the sparse deliveries are performed once for it.
+func owners(cases []*kase) {
+	seenC, seenH := map[string]bool{}, map[string]bool{}
+	for _, k := range cases {
+		var reads, writes []opc
+		for _, o := range k.Hops {
+			if o.Op == "write" {
+				writes = append(writes, o)
+			} else {
+				reads = append(reads, o)
+			}
+		}
+		kc, _ := json.Marshal([]interface{}{k.Cmsgs, k.Tam, reads})
+		kh, _ := json.Marshal([]interface{}{writes, k.Tam, k.Cops})
+		k.ownC2H, k.ownH2C = !seenC[string(kc)], !seenH[string(kh)]
+		// the direction the adversary did not touch carries the bytes of an untouched run: its sparse
+		// deliveries are those of the run without adversary
+		if k.Tam.Dir == "c2h" {
+			k.ownH2C = false
+		}
+		if k.Tam.Dir == "h2c" {
+			k.ownC2H = false
+		}
+		if k.ownC2H {
+			seenC[string(kc)] = true
+		}
+		if k.ownH2C {
+			seenH[string(kh)] = true
+		}
+	}
 }
 
 type failure struct {
@@ -230,11 +363,13 @@ type failure struct {
 }
 
 type result struct {
-	I     int            `json:"i"`
-	Calls int            `json:"calls"`
-	Fails []failure      `json:"fails,omitempty"`
-	Any   map[string]int `json:"any,omitempty"` // outcome of the calls the specification leaves open
-	Skip  int            `json:"skipped_huge_alloc,omitempty"`
+	I      int            `json:"i"`
+	Calls  int            `json:"calls"`
+	Fails  []failure      `json:"fails,omitempty"`
+	Any    map[string]int `json:"any,omitempty"` // outcome of the calls the specification leaves open
+	Skip   int            `json:"skipped_huge_alloc,omitempty"`
+	Units  int            `json:"units"`            // (delivery, EOF style) pairs performed
+	Sparse int            `json:"sparse,omitempty"` // of which sparse deliveries
 }
 
 type env struct {
@@ -457,10 +592,9 @@ func applyTamper(data []byte, w *recWriter, t tamper) ([]byte, string, error) {
 	return nil, "", fmt.Errorf("unknown tamper %q", t.A)
 }
 
-func (e *env) do(k *kase, i int) result {
+func (e *env) do(k *kase, i int, o *opts) result {
 	res := result{I: i, Any: map[string]int{}}
 	ctx := context.Background()
-	untouched := k.Tam.Dir == ""
 	// ---- client writes (once; the bytes are the same for every chunking)
 	cw := &recWriter{}
 	late := &lateReader{}
@@ -502,21 +636,106 @@ func (e *env) do(k *kase, i int) result {
 			return res
 		}
 	}
+	// ---- dense deliveries, the same one in both directions
+	var ref *recWriter // what the handler wrote in a unit that went as specified
 	for _, pl := range plansOf(len(c2h), cw.ends) {
 		for _, eof := range eofModes {
-			e.handlerAndClient(k, c2h, pl, eof, tokKind, untouched, &res)
+			u := unit{k: k, i: i, o: o, res: &res, name: pl.name + "/" + eof, plan: pl.name, eof: eof, tokKind: tokKind}
+			if o.skip[u.name] {
+				continue
+			}
+			res.Units++
+			hw, ok := e.handlerSide(&u, c2h, pl)
+			if !ok {
+				continue
+			}
+			if ref == nil {
+				ref = hw
+			}
+			name := pl.name
+			e.clientSide(&u, hw, func(n int, ends []int) (plan, error) {
+				for _, x := range plansOf(n, ends) {
+					if x.name == name {
+						return x, nil
+					}
+				}
+				return plan{}, fmt.Errorf("no plan %s", name)
+			})
+		}
+	}
+	// ---- sparse deliveries of the specification, one direction at a time
+	if k.ownC2H {
+		for _, dl := range k.Cuts.C2H {
+			pl, err := cutPlan(cutsOf(dl), cw.ends, len(c2h))
+			if err != nil {
+				res.Fails = append(res.Fails, failure{Side: "machinery", Kind: "tokens", Got: "c2h " + err.Error()})
+				return res
+			}
+			for _, eof := range eofModes {
+				u := unit{k: k, i: i, o: o, res: &res, name: "c2h:" + pl.name + "/" + eof, plan: pl.name, eof: eof, tokKind: tokKind}
+				if o.skip[u.name] {
+					continue
+				}
+				res.Units++
+				res.Sparse++
+				e.handlerSide(&u, c2h, pl)
+			}
+		}
+	}
+	if k.ownH2C && ref != nil {
+		for _, dl := range k.Cuts.H2C {
+			cuts := cutsOf(dl)
+			var perr error
+			mk := func(n int, ends []int) (plan, error) {
+				pl, err := cutPlan(cuts, ends, n)
+				perr = err
+				return pl, err
+			}
+			pl, err := cutPlan(cuts, ref.ends, ref.buf.Len()) // the name; sizes are computed on the bytes after the adversary
+			if err != nil {
+				res.Fails = append(res.Fails, failure{Side: "machinery", Kind: "tokens", Got: "h2c " + err.Error()})
+				return res
+			}
+			for _, eof := range eofModes {
+				u := unit{k: k, i: i, o: o, res: &res, name: "h2c:" + pl.name + "/" + eof, plan: pl.name, eof: eof, tokKind: tokKind}
+				if o.skip[u.name] {
+					continue
+				}
+				res.Units++
+				res.Sparse++
+				e.clientSide(&u, ref, mk)
+				if perr != nil {
+					return res
+				}
+			}
 		}
 	}
 	return res
 }
 
-func (e *env) handlerAndClient(k *kase, c2h []byte, pl plan, eof, tokKind string, untouched bool, res *result) {
+// unit = one (delivery, EOF style) of one case
+type unit struct {
+	k       *kase
+	i       int
+	o       *opts
+	res     *result
+	name    string
+	plan    string
+	eof     string
+	tokKind string
+}
+
+func (u *unit) fail(side string, at int, op, kind, got, want string) {
+	u.res.Fails = append(u.res.Fails, failure{Side: side, At: at, Op: op, Kind: kind, Plan: u.plan, EOF: u.eof, Got: got, Want: want, Tok: u.tokKind})
+}
+
+// handlerSide runs the handler of the case on the client's bytes delivered as pl says. ok: it
+// went as specified and wrote the tokens of the run; hw holds them.
+func (e *env) handlerSide(u *unit, c2h []byte, pl plan) (hw *recWriter, ok bool) {
+	k, res, fail := u.k, u.res, u.fail
 	ctx := context.Background()
-	fail := func(side string, at int, op, kind, got, want string) {
-		res.Fails = append(res.Fails, failure{Side: side, At: at, Op: op, Kind: kind, Plan: pl.name, EOF: eof, Got: got, Want: want, Tok: tokKind})
-	}
-	hw := &recWriter{}
-	r := &chunkReader{data: c2h, plan: pl.sizes, eager: eof == "eager", cur: -1}
+	hw = &recWriter{}
+	r := &chunkReader{data: c2h, plan: pl.sizes, eager: u.eof == "eager", cur: -1}
 	called := false
 	nfails := len(res.Fails)
 	script := func(ctx context.Context, _ net.Addr, broker *quicstreamheader.HandlerBroker, header reqHeader) (context.Context, error) {
@@ -572,6 +791,7 @@ func (e *env) handlerAndClient(k *kase, c2h []byte, pl plan, eof, tokKind string
 			}
 			return ctx, nil
 		})
+	u.o.unit(u.i, u.name, "handler", u.tokKind)
 	p, hung := guarded(func() {
 		var prefix quicstream.HandlerPrefix
 		res.Calls++
@@ -589,51 +809,58 @@ func (e *env) handlerAndClient(k *kase, c2h []byte, pl plan, eof, tokKind string
 	switch {
 	case hung:
 		fail("handler", -1, "handler", "hang", "no return within 60s", "a message or an error")
-		return
+		return hw, false
 	case p != "":
 		fail("handler", -1, "handler", "panic", p, "a message or an error")
-		return
+		return hw, false
 	}
 	if k.Hops[0].T == "any" && called {
 		res.Any["handler-readreq:message"]++
 	}
 	if len(res.Fails) > nfails { // the handler side already failed: what it wrote is not the run's
-		return
+		return hw, false
 	}
-	// ---- client reads
 	if k.Hops[0].T == "any" { // the handler saw a damaged request: whatever it wrote is outside the run
-		return
+		return hw, false
 	}
 	if len(hw.ends) != k.Ntok.H2C {
 		if k.Tam.Dir == "c2h" {
-			return // a damaged client stream may keep the handler from writing everything
+			return hw, false // a damaged client stream may keep the handler from writing everything
 		}
 		fail("machinery", 0, "", "tokens", fmt.Sprint(len(hw.ends)), fmt.Sprint(k.Ntok.H2C))
-		return
+		return hw, false
 	}
+	return hw, true
+}
+
+// clientSide performs the client's read calls on what the handler wrote (after the adversary),
+// delivered as mk says.
+func (e *env) clientSide(u *unit, hw *recWriter, mk func(n int, ends []int) (plan, error)) {
+	k, res, fail := u.k, u.res, u.fail
+	ctx := context.Background()
 	h2c := hw.buf.Bytes()
-	ends := hw.ends
+	tokKind := u.tokKind
 	if k.Tam.Dir == "h2c" {
 		var err error
 		if h2c, tokKind, err = applyTamper(h2c, hw, k.Tam); err != nil {
 			fail("machinery", 0, "", "tokens", err.Error(), "")
 			return
 		}
+		u.tokKind = tokKind
 		if allocWalk(h2c, false) > capAlloc {
 			res.Skip++
 			return
 		}
 	}
-	cpl := plansOf(len(h2c), ends)
-	var sizes []int
-	for _, x := range cpl {
-		if x.name == pl.name {
-			sizes = x.sizes
-		}
+	pl, err := mk(len(h2c), hw.ends)
+	if err != nil {
+		fail("machinery", 0, "", "tokens", "h2c "+err.Error(), "")
+		return
 	}
-	cr := &chunkReader{data: h2c, plan: sizes, eager: eof == "eager", cur: -1}
+	cr := &chunkReader{data: h2c, plan: pl.sizes, eager: u.eof == "eager", cur: -1}
 	cb := quicstreamheader.NewClientBroker(e.encs, e.enc, cr, &recWriter{})
-	p, hung = guarded(func() {
+	u.o.unit(u.i, u.name, "client-read", tokKind)
+	p, hung := guarded(func() {
 		for j, o := range k.Cops {
 			res.Calls++
 			var g got
@@ -675,7 +902,6 @@ func (e *env) handlerAndClient(k *kase, c2h []byte, pl plan, eof, tokKind string
 	case p != "":
 		fail("client-read", -1, "client", "panic", p, "a message or an error")
 	}
-	_ = untouched
 }
 
 // ---------------------------------------------------------------- fuzz: raw bytes into the read side
@@ -690,7 +916,7 @@ type fuzzRow struct {
 	Head   string `json:"head,omitempty"`
 }
 
-func (e *env) fuzzOne(seed int64, i int) fuzzRow {
+func (e *env) fuzzOne(seed int64, i int, o *opts) fuzzRow {
 	r := rand.New(rand.NewSource(seed*15485863 + int64(i)))
 	row := fuzzRow{Fuzz: true, Seed: seed}
 	row.I = i
@@ -706,13 +932,18 @@ func (e *env) fuzzOne(seed int64, i int) fuzzRow {
 		}
 		return m
 	}
+	var wrote []opc // the messages after the request head, as read calls must return them
+	reqID := ""
 	if p := h.Catch(func() {
 		if handlerSide {
 			row.Side = "handler"
 			cb := quicstreamheader.NewClientBroker(e.encs, e.enc, &lateReader{}, w)
-			_ = cb.WriteRequestHead(ctx, newReqHeader(fmt.Sprintf("id%d", r.Intn(1000))))
+			reqID = fmt.Sprintf("id%d", r.Intn(1000))
+			_ = cb.WriteRequestHead(ctx, newReqHeader(reqID))
 			for n := r.Intn(3); n > 0 && !w.closed; n-- {
-				_ = writeBody(ctx, cb, rb())
+				m := rb()
+				_ = writeBody(ctx, cb, m)
+				wrote = append(wrote, opc{Op: "readbody", msg: m, OK: true})
 			}
 		} else {
 			row.Side = "client"
@@ -724,8 +955,15 @@ func (e *env) fuzzOne(seed int64, i int) fuzzRow {
 						herr = errors.Errorf(errText)
 					}
 					_ = hb.WriteResponseHeadOK(ctx, herr == nil, herr)
+					m := msg{T: "res", K: "ok"}
+					if herr != nil {
+						m.K = "err"
+					}
+					wrote = append(wrote, opc{Op: "readbody", msg: m, OK: true})
 				} else {
-					_ = writeBody(ctx, hb, rb())
+					m := rb()
+					_ = writeBody(ctx, hb, m)
+					wrote = append(wrote, opc{Op: "readbody", msg: m, OK: true})
 				}
 			}
 		}
@@ -802,27 +1040,55 @@ func (e *env) fuzzOne(seed int64, i int) fuzzRow {
 		n += c
 	}
 	cr := &chunkReader{data: data, plan: sizes, eager: r.Intn(2) == 0, cur: -1}
+	eofName := map[bool]string{false: "late", true: "eager"}[cr.eager]
+	// an untouched stream under any chunk sizes: every message written is read back (ReadBody
+	// returns a response head as the response); nothing is demanded of the calls after them
+	untouched := row.Tamper == "none"
+	mism := func(at int, op string, g got, want opc) {
+		kind := "mismatch"
+		if g.T == "error" {
+			kind = "rejected"
+		}
+		row.Fails = append(row.Fails, failure{Side: row.Side, At: at, Op: op, Kind: kind, Plan: "random", EOF: eofName, Got: g.desc, Want: wantDesc(want)})
+	}
+	o.unit(i, "fuzz", row.Side, "")
 	p, hung := guarded(func() {
 		if handlerSide {
 			var prefix quicstream.HandlerPrefix
 			if _, err := util.EnsureRead(ctx, cr, prefix[:]); err != nil && !errors.Is(err, io.EOF) {
 				row.Any["prefix:error"]++
+				if untouched {
+					mism(0, "prefix", got{msg: msg{T: "error"}, desc: "error: " + err.Error()}, opc{Op: "prefix", msg: msg{T: "prefix"}, OK: true})
+				}
 				return
 			}
 			handler := quicstreamheader.NewHandler[reqHeader](e.encs,
-				func(ctx context.Context, _ net.Addr, broker *quicstreamheader.HandlerBroker, _ reqHeader) (context.Context, error) {
+				func(ctx context.Context, _ net.Addr, broker *quicstreamheader.HandlerBroker, hd reqHeader) (context.Context, error) {
 					row.Any["readreq:message"]++
+					if untouched && hd.ID != reqID {
+						mism(0, "readreq", got{msg: msg{T: "req", K: hd.ID}, desc: "request id=" + hd.ID}, opc{Op: "readreq", msg: msg{T: "req", K: reqID}, OK: true})
+					}
 					for n := 0; n < 4; n++ {
 						row.Calls++
 						bt, l, body, _, rh, err := broker.ReadBody(ctx)
 						g := describeBody(bt, l, body, rh, err)
 						row.Any["readbody:"+g.T]++
+						if untouched && n < len(wrote) && !g.matches(wrote[n]) {
+							mism(n+1, "readbody", g, wrote[n])
+							break
+						}
 						if err != nil {
 							break
 						}
 					}
 					return ctx, nil
-				}, nil)
+				},
+				func(ctx context.Context, _ net.Addr, broker *quicstreamheader.HandlerBroker, err error) (context.Context, error) {
+					if untouched {
+						mism(0, "readreq", got{msg: msg{T: "error"}, desc: "error: " + err.Error()}, opc{Op: "readreq", msg: msg{T: "req", K: reqID}, OK: true})
+					}
+					return ctx, broker.WriteResponseHeadOK(ctx, false, err) // as the default error handler does
+				})
 			row.Calls++
 			_, _ = handler(ctx, &net.UDPAddr{IP: net.IPv4(127, 0, 0, 1), Port: 1}, cr, &recWriter{})
 			return
@@ -830,6 +1096,19 @@ func (e *env) fuzzOne(seed int64, i int) fuzzRow {
 		cb := quicstreamheader.NewClientBroker(e.encs, e.enc, cr, &recWriter{})
 		for n := 0; n < 4; n++ {
 			row.Calls++
+			if untouched {
+				bt, l, body, _, rh, err := cb.ReadBody(ctx)
+				g := describeBody(bt, l, body, rh, err)
+				row.Any["readbody:"+g.T]++
+				if n < len(wrote) && !g.matches(wrote[n]) {
+					mism(n, "readbody", g, wrote[n])
+					break
+				}
+				if err != nil {
+					break
+				}
+				continue
+			}
 			if r.Intn(3) == 0 {
 				_, rh, err := cb.ReadResponseHead(ctx)
 				g := describeBody(quicstreamheader.BodyType{}, 0, nil, rh, err)
@@ -866,17 +1145,80 @@ func run(args []string) error {
 		return fmt.Errorf("usage: C30 replay|fuzz ...")
 	}
 	fl := h.Flags(args[1:])
-	out, err := h.NewOut(fl["out"])
+	fd, err := os.Create(fl["out"])
 	if err != nil {
 		return err
 	}
-	defer out.Close()
+	defer fd.Close()
+	o := &opts{out: &lineOut{fd: fd}, skip: map[string]bool{}}
+	_, o.trace = fl["trace"]
+	for _, u := range strings.Split(fl["skip"], ";") {
+		if u != "" {
+			o.skip[u] = true
+		}
+	}
 	encs, enc, err := newEncoders()
 	if err != nil {
 		return err
 	}
 	e := &env{encs: encs, enc: enc}
 	workers := min(runtime.NumCPU(), 8)
+	if s, ok := fl["workers"]; ok {
+		workers, _ = strconv.Atoi(s)
+	}
+	// a case that is re-run alone: leave goroutines the code under test may have left behind the
+	// time to fail before the process ends
+	grace := func() {
+		if s, ok := fl["grace"]; ok {
+			ms, _ := strconv.Atoi(s)
+			time.Sleep(time.Duration(ms) * time.Millisecond)
+		}
+	}
+	pool := func(ids []int, f func(i int) interface{}) {
+		ch := make(chan int)
+		var wg sync.WaitGroup
+		for w := 0; w < workers; w++ {
+			wg.Add(1)
+			go func() {
+				defer wg.Done()
+				for i := range ch {
+					o.out.Emit(map[string]int{"start": i})
+					o.out.Emit(f(i))
+				}
+			}()
+		}
+		for _, i := range ids {
+			ch <- i
+		}
+		close(ch)
+		wg.Wait()
+		grace()
+	}
+	// --only "3,17,21": these cases (indices of the input / of the fuzz sequence) and no others
+	only := func(n int) []int {
+		var ids []int
+		if s, ok := fl["only"]; ok {
+			for _, x := range strings.Split(s, ",") {
+				if i, err := strconv.Atoi(x); err == nil {
+					ids = append(ids, i)
+				}
+			}
+			return ids
+		}
+		if f, ok := fl["ids"]; ok { // a file with one index per line
+			_ = h.ReadNDJSON(f, func(line []byte) error {
+				if i, err := strconv.Atoi(strings.TrimSpace(string(line))); err == nil {
+					ids = append(ids, i)
+				}
+				return nil
+			})
+			return ids
+		}
+		for i := 0; i < n; i++ {
+			ids = append(ids, i)
+		}
+		return ids
+	}
 	switch args[0] {
 	case "replay":
 		var cases []*kase
@@ -890,50 +1232,24 @@ func run(args []string) error {
 		}); err != nil {
 			return err
 		}
-		ch := make(chan int)
-		var wg sync.WaitGroup
-		for w := 0; w < workers; w++ {
-			wg.Add(1)
-			go func() {
-				defer wg.Done()
-				for i := range ch {
-					out.Emit(e.do(cases[i], i))
-				}
-			}()
+		ids := only(len(cases))
+		var sel []*kase
+		for _, i := range ids {
+			if i < 0 || i >= len(cases) {
+				return fmt.Errorf("no case %d", i)
+			}
+			sel = append(sel, cases[i])
 		}
-		for i := range cases {
-			ch <- i
-		}
-		close(ch)
-		wg.Wait()
+		owners(sel)
+		pool(ids, func(i int) interface{} { return e.do(cases[i], i, o) })
 		return nil
 	case "fuzz":
 		seed, _ := strconv.ParseInt(os.Getenv("VERIF_SEED"), 10, 64)
 		if s, ok := fl["seed"]; ok {
 			seed, _ = strconv.ParseInt(s, 10, 64)
 		}
-		if s, ok := fl["only"]; ok {
-			i, _ := strconv.Atoi(s)
-			out.Emit(e.fuzzOne(seed, i))
-			return nil
-		}
 		num, _ := strconv.Atoi(fl["num"])
-		ch := make(chan int)
-		var wg sync.WaitGroup
-		for w := 0; w < workers; w++ {
-			wg.Add(1)
-			go func() {
-				defer wg.Done()
-				for i := range ch {
-					out.Emit(e.fuzzOne(seed, i))
-				}
-			}()
-		}
-		for i := 0; i < num; i++ {
-			ch <- i
-		}
-		close(ch)
-		wg.Wait()
+		pool(only(num), func(i int) interface{} { return e.fuzzOne(seed, i, o) })
 		return nil
 	}
 	return fmt.Errorf("unknown mode %q", args[0])
